@@ -28,7 +28,7 @@ type c14Write struct {
 
 // hookOp: the operation whose journaled point parks the writer (the first one of a compound write)
 func (w c14Write) hookOp() string {
-	if i := strings.IndexAny(w.name, "(+"); i > 0 {
+	if i := strings.IndexAny(w.name, "(+|"); i > 0 {
 		return w.name[:i]
 	}
 	return w.name
@@ -95,6 +95,13 @@ var c14Writes = []c14Write{
 			func() error { return x.VUnlink("ix", "p2", "p0", "r", "", false) },
 			func() error { return x.VLink("ix", "p2", "p0", "r", "", 6, nil) })
 	}},
+	// writes that straddle the admin operation: the first part is issued as the schedule says,
+	// the second part (c14After) once the snapshot / compaction has completed
+	{"VAdd|VDelete(after)", nil, func(x *vexec.Exec) error {
+		return x.VAdd("ix", "straddle", []float32{7, 7}, map[string]any{"seq": 1.0})
+	}},
+	{"VSetMetadata|VDelete(after)", nil, func(x *vexec.Exec) error { return x.VSetMetadata("ix", "p1", map[string]any{"seq": 3.0}) }},
+	{"VLink|VUnlink(after)", nil, func(x *vexec.Exec) error { return x.VLink("ix", "p1", "p0", "r", "ri", 2, nil) }},
 	{"VDelete+VAdd", nil, func(x *vexec.Exec) error {
 		return c14Seq(func() error { return x.VDelete("ix", "p1") },
 			func() error { return x.VAdd("ix", "p1", []float32{9, 9}, map[string]any{"seq": 5.0}) })
@@ -103,6 +110,13 @@ var c14Writes = []c14Write{
 		return c14Seq(func() error { return x.VSetMetadata("ix", "p0", map[string]any{"seq": 9.0, "a": "x"}) },
 			func() error { return x.VSetMetadata("ix", "p0", map[string]any{"seq": 10.0}) })
 	}},
+}
+
+// c14After: the second part of a straddling write.
+var c14After = map[string]func(x *vexec.Exec) error{
+	"VAdd|VDelete(after)":         func(x *vexec.Exec) error { return x.VDelete("ix", "straddle") },
+	"VSetMetadata|VDelete(after)": func(x *vexec.Exec) error { return x.VDelete("ix", "p1") },
+	"VLink|VUnlink(after)":        func(x *vexec.Exec) error { return x.VUnlink("ix", "p1", "p0", "r", "ri", false) },
 }
 
 var c14SnapPhases = []string{"snap.begin", "snap.tmp_written", "snap.renamed", "snap.truncated", "snap.mode_ended", "snap.shadow_replayed"}
@@ -198,6 +212,12 @@ func TestVerifC14(t *testing.T) {
 			cs.Op("schedule: write %s %s, %s at %s", wr.name, s.order, s.admin, s.phase)
 			res := c14RunSchedule(cs, x, wr, s.admin, s.phase, s.order)
 			ctx.Count("sched."+res, 1)
+			if after := c14After[wr.name]; after != nil {
+				if err := after(x); err != nil {
+					cs.Fail("second part of %s failed: %v", wr.name, err)
+				}
+				x.Settle()
+			}
 			// every acknowledged write (the executor recorded it in the model) must be there
 			// now and after a restart
 			if msg := x.CheckFull(); msg != "" {
